@@ -25,7 +25,7 @@ static Verdict history(Rng &r, int dim, int steps, std::string &trace) {
     const int NV = 4;
     std::vector<V> vs(NV); std::vector<D> ds(NV);
     for (int s = 0; s < steps; s++) {
-        int op = r.below(9), i = r.below(NV), j = r.below(NV), k = r.below(NV);
+        int op = r.below(10), i = r.below(NV), j = r.below(NV), k = r.below(NV);
         std::ostringstream o;
         if (op == 0) { U c = r.below(dim); vs[i] = V(c); ds[i] = D{c}; o << "v" << i << "=unit(" << c << ")"; }
         else if (op == 1) { D s0; int n = r.below(dim + 1); for (int q = 0; q < n; q++) s0.insert(r.below(dim)); vs[i] = V(s0); ds[i] = s0; o << "v" << i << "=fromset(" << s0.size() << ")"; }
@@ -34,6 +34,7 @@ static Verdict history(Rng &r, int dim, int steps, std::string &trace) {
         else if (op == 4) { V c(vs[j]); vs[i] = c; ds[i] = ds[j]; o << "v" << i << "=copy(v" << j << ")"; }
         else if (op == 5) { D d = ds[j]; V t(std::move(vs[j])); vs[i] = std::move(t); ds[i] = d; if (i != j) { vs[j] = V(ds[j]); } o << "v" << i << "=move(v" << j << ")"; }
         else if (op == 6) { vs[i].clear(); ds[i].clear(); o << "v" << i << ".clear()"; }
+        else if (op == 9) { U c = ds[i].empty() ? (U) r.below(dim) : *ds[i].rbegin() + 1 + (U) r.below(3); vs[i].add(c); ds[i].insert(c); o << "v" << i << ".add(" << c << ")"; }   // precondition of add: beyond the last coordinate
         else if (op == 7) { int p = vs[i] * vs[j]; o << "dot(v" << i << ",v" << j << ")"; trace += o.str() + "; "; if (p != par(ds[i], ds[j])) return {"gf2-dot", "vector product " + std::to_string(p) + " != parity of common coordinates"}; continue; }
         else { D s0; int n = r.below(dim + 1); for (int q = 0; q < n; q++) s0.insert(r.below(dim)); int p = vs[i] * s0; o << "dotset(v" << i << ")"; trace += o.str() + "; "; if (p != par(ds[i], s0)) return {"gf2-dotset", "set product wrong"}; continue; }
         trace += o.str() + "; ";
